@@ -114,6 +114,9 @@ impl Check for Merkle {
     fn components(&self) -> serde_json::Value {
         serde_json::json!({"real": ["examples/fungible-merkle-airdrop (from source)", "merkle_distributor::*", "crypto::{merkle::Verifier, hashable, sha256}", "fungible Base token"], "stub": ["reference tree builder in the harness (hash primitive = host sha256)"]})
     }
+    fn clock_step(&self, n: u32) -> Option<Step> {
+        Some(Step::Advance { n })
+    }
     fn probes(&self, _prop: &str) -> std::vec::Vec<&'static str> {
         vec!["probe.claimed_flag_queried_after_long_time", "fault.corrupted_claim"]
     }
